@@ -25,8 +25,8 @@ RULE = (
     "(<= 1 in three quarters of the cases, <= 4 otherwise), nx,ny in 4..8, a domain size relative to the column height, an output "
     "level in {surface, 1/4, 1/2, top} and a dense random source. The solver is run at n and 4n layers (halo=0, double) and the "
     "per-mode transfer functions fft2(conc)/fft2(q0), fft2(flux)/fft2(q0) are compared with the Riccati/DOP853 reference of the "
-    "continuous BVP. Admitted modes: r = max_i |T|dz_i^2/Kz <= 1 on the coarse grid, sum Re(lambda)dz <= 18 over the column and <= 8 up to the output height (the relative rounding error of "
-    "the decayed response at height z is ~ eps*exp(2*growth(z)); unpaired Nyquist row/column excluded). Assertions: (a) E(n) <= 6*delta(n) and E(4n) < E(n) (or both < 1e-6) over all admitted modes; (b) rate "
+    "continuous BVP. Admitted modes: r = max_i |T|dz_i^2/Kz <= 1 on the coarse grid, sum Re(lambda)dz <= 18 over the column and <= 8 up to the output height; components on the unpaired Nyquist row/column of even grids are compared with the real-part combination (H(k)+conj(H(k')))/2 of the reference (the relative rounding error of "
+    "the decayed response at height z is ~ eps*exp(2*growth(z))). Assertions: (a) E(n) <= 6*delta(n) and E(4n) < E(n) (or both < 1e-6) over all admitted modes; (b) rate "
     "E(4n) <= max(E(n)/2.5, 1e-6) over admitted modes with r <= 0.5 on grids with delta <= 1 and at least 16 layers (E = max over the mode set of the "
     "larger of the relative conc- and flux-transfer errors). Non-trivial = >= 2 admitted modes, Kz(top)/Kz(z0) >= 2 and E(n) > 1e-5; "
     "distinct = canonical JSON."
@@ -157,34 +157,60 @@ def check_case(c):
     delta = float(np.max(dzc / zc[:-1]))
     out.label("fam=" + c["fam"], "grid=" + gk, "delta<=1" if delta <= 1 else "delta>1", f"level={c['lvl_frac']}")
 
-    # admitted modes on the coarse grid
+    # admitted modes on the coarse grid.  A component on the unpaired Nyquist column / row of an even grid is observed
+    # through the real part of the field: its transfer function is  (H(k) + conj(H(k')))/2  with k' the wavenumber the
+    # solver uses for the mirror partner (the Nyquist index keeps its sign), so it has two "parts".
+    zl = zc[:-1]
+
+    def resolved(kx, ky):
+        T = -(fn[2](zl) * kx**2 + fn[3](zl) * ky**2) - 1j * (fn[0](zl) * kx + fn[1](zl) * ky)
+        Kz = fn[4](zl)
+        lam_dz = np.sqrt(-T / Kz).real * dzc
+        r_ = float(np.max(np.abs(T) * dzc**2 / Kz))
+        g_ = float(np.sum(lam_dz))
+        # growth up to the output height: the relative rounding error of the decayed response there is ~ eps*exp(2*g_out)
+        g_out_ = float(np.sum(lam_dz[: int(round(c["lvl_frac"] * n0))]))
+        return r_, (r_ <= 1.0 and g_ <= 18.0 and g_out_ <= 8.0)
+
     sel = []
     for j in range(ny):
         for i in range(nx):
-            if (i == 0 and j == 0) or (nx % 2 == 0 and i == nx // 2) or (ny % 2 == 0 and j == ny // 2):
+            if i == 0 and j == 0:
                 continue
             if abs(Q[j, i]) <= 1e-6 * np.abs(Q).max():
                 continue
-            zl = zc[:-1]
-            T = -(fn[2](zl) * kxs[i] ** 2 + fn[3](zl) * kys[j] ** 2) - 1j * (fn[0](zl) * kxs[i] + fn[1](zl) * kys[j])
-            Kz = fn[4](zl)
-            r = float(np.max(np.abs(T) * dzc**2 / Kz))
-            lam_dz = np.sqrt(-T / Kz).real * dzc
-            g = float(np.sum(lam_dz))
-            # growth up to the output height: the relative rounding error of the decayed response there is ~ eps*exp(2*g_out)
-            g_out = float(np.sum(lam_dz[: int(round(c["lvl_frac"] * n0))]))
-            if r <= 1.0 and g <= 18.0 and g_out <= 8.0:
-                sel.append((j, i, r))
-    if len(sel) > MAX_MODES:  # deterministic thinning, keeping the best- and the worst-resolved
+            nyq_x = nx % 2 == 0 and i == nx // 2
+            nyq_y = ny % 2 == 0 and j == ny // 2
+            parts = [(kxs[i], kys[j])]
+            if nyq_x and nyq_y:
+                parts.append((kxs[i], kys[j]))
+            elif nyq_x:
+                parts.append((kxs[i], -kys[j]))
+            elif nyq_y:
+                parts.append((-kxs[i], kys[j]))
+            rs, oks = zip(*(resolved(*p_) for p_ in parts))
+            if all(oks):
+                sel.append((j, i, max(rs), parts))
+    if len(sel) > MAX_MODES:  # deterministic thinning, keeping the best- and the worst-resolved and some Nyquist components
         sel.sort(key=lambda t: t[2])
         idx = np.unique(np.round(np.linspace(0, len(sel) - 1, MAX_MODES)).astype(int))
-        sel = [sel[k] for k in idx]
+        keep = [sel[k] for k in idx]
+        extra = [t for t in sel if len(t[3]) == 2 and t not in keep][:4]
+        sel = keep + extra
     if len(sel) < 1:
         out.label("no-admitted-mode")
         return out
 
     refs = {}
+
+    def href(kx, ky, zout):
+        key = (kx, ky)
+        if key not in refs:
+            refs[key] = ref_transfer(fn, kx, ky, z0, ztop, zout)
+        return refs[key]
+
     E_all, E_half = [], []
+    n_nyq = 0
     for n in (n0, 4 * n0):
         z = zgrid(gk, n, z0, ztop, zm)
         prof = tuple(f(z) for f in fn)
@@ -198,16 +224,25 @@ def check_case(c):
         Hc = np.fft.fft2(cc) / Q
         Hq = np.fft.fft2(ff) / Q
         ea = eh = 0.0
-        for (j, i, r) in sel:
-            if (j, i) not in refs:
-                refs[(j, i)] = ref_transfer(fn, kxs[i], kys[j], z0, ztop, float(z[lvl]))
-            cr, qr = refs[(j, i)]
+        for (j, i, r, parts) in sel:
+            if len(parts) == 1:
+                cr, qr = href(parts[0][0], parts[0][1], float(z[lvl]))
+            else:
+                c1_, q1_ = href(parts[0][0], parts[0][1], float(z[lvl]))
+                c2_, q2_ = href(parts[1][0], parts[1][1], float(z[lvl]))
+                cr, qr = 0.5 * (c1_ + np.conj(c2_)), 0.5 * (q1_ + np.conj(q2_))
+                if abs(cr) < 0.1 * max(abs(c1_), abs(c2_)) or abs(qr) < 0.1 * max(abs(q1_), abs(q2_)):
+                    continue  # the two parts nearly cancel: no meaningful relative error
+                if n == n0:
+                    n_nyq += 1
             e = max(abs(Hc[j, i] - cr) / abs(cr), abs(Hq[j, i] - qr) / abs(qr))
             ea = max(ea, e)
             if r <= 0.5:
                 eh = max(eh, e)
         E_all.append(ea)
         E_half.append(eh)
+    if n_nyq:
+        out.label("nyquist-components-checked")
 
     n_half = sum(1 for s in sel if s[2] <= 0.5)
     out.detail = {"delta": delta, "E_all": E_all, "E_half": E_half, "admitted": len(sel), "admitted_r<=0.5": n_half,
